@@ -150,18 +150,37 @@ func (t DurationValue) String() string {
 }
 
 // Validator is a validator with an identity.
-type Validator struct{ ID int }
+type Validator struct {
+	ID int
+	// Form is the spelling the configuration uses for this validator when it is not verif/tfx.V(ID)
+	Form string
+}
 
-func V(id int) tfsdk.AttributeValidator                        { return Validator{id} }
+func V(id int) tfsdk.AttributeValidator { return Validator{ID: id} }
+
+// VS is a validator with a string argument (regular expressions, dots, brackets, quotes ...).
+func VS(s string) tfsdk.AttributeValidator {
+	return Validator{ID: -1, Form: fmt.Sprintf("verif/tfx.VS(%q)", s)}
+}
+
 func (v Validator) Description(context.Context) string         { return fmt.Sprintf("V(%d)", v.ID) }
 func (v Validator) MarkdownDescription(context.Context) string { return fmt.Sprintf("V(%d)", v.ID) }
 func (v Validator) Validate(context.Context, tfsdk.ValidateAttributeRequest, *tfsdk.ValidateAttributeResponse) {
 }
 
 // PlanModifier is a plan modifier with an identity.
-type PlanModifier struct{ ID int }
+type PlanModifier struct {
+	ID   int
+	Form string
+}
 
-func PM(id int) tfsdk.AttributePlanModifier                       { return PlanModifier{id} }
+func PM(id int) tfsdk.AttributePlanModifier { return PlanModifier{ID: id} }
+
+// PMS is a plan modifier with a string argument.
+func PMS(s string) tfsdk.AttributePlanModifier {
+	return PlanModifier{ID: -1, Form: fmt.Sprintf("verif/tfx.PMS(%q)", s)}
+}
+
 func (v PlanModifier) Description(context.Context) string         { return fmt.Sprintf("PM(%d)", v.ID) }
 func (v PlanModifier) MarkdownDescription(context.Context) string { return fmt.Sprintf("PM(%d)", v.ID) }
 func (v PlanModifier) Modify(context.Context, tfsdk.ModifyAttributePlanRequest, *tfsdk.ModifyAttributePlanResponse) {
